@@ -403,7 +403,7 @@ def expand_task(unit):
         st.outcomes["%s:%s" % (op[0], want[0] if want[0] == "exc" else ("noop" if model == pre else "changed"))] = \
             st.outcomes.get("%s:%s" % (op[0], want[0] if want[0] == "exc" else ("noop" if model == pre else "changed")), 0) + 1
         # ---- failure points: every statement of this operation
-        if do_faults:
+        if do_faults == "all" or (do_faults == "bulk" and op[0] in ("remove_prefix", "remove_regex") and want[0] == "ok" and want[1] >= 1):
             faulty = FaultySqlite()
             saved = nameserver.sqlite3
             try:
@@ -475,7 +475,7 @@ def run(ctx):
     capped = False
     while frontier and level <= depth:
         nsl = 16 if (level <= fault_depth and len(frontier) < 64) else (4 if len(frontier) < 64 else 1)
-        units = [(ctx.tier, h, s, level <= fault_depth, (i, nsl)) for h, s in frontier for i in range(nsl)]
+        units = [(ctx.tier, h, s, "all" if level <= fault_depth else "bulk", (i, nsl)) for h, s in frontier for i in range(nsl)]
         nxt = []
         for st, succ in ctx.pmap(expand_task, units):
             total.merge(st)
@@ -496,7 +496,7 @@ def run(ctx):
         rule="breadth-first search over histories of %d mutating operations (register safe/unsafe with tag sets, remove by name/prefix/regex, set_metadata over names "
              "with case pairs, SQL wildcards, regex metacharacters, unicode, the empty string and the server's own name) from 2 initial states to depth %d, states "
              "deduplicated by (map, memory storage, raw sqlite rows); in every state %d queries are compared three-way (dict model / memory / sqlite), the database is "
-             "reopened, and for states up to depth %d every statement and commit of every mutating operation is made to fail; distinct = distinct states"
+             "reopened, and every statement and commit of every mutating operation (all operations up to depth %d, bulk removals that remove something at every depth) is made to fail; distinct = distinct states"
              % (len(muts), depth + 1, len(qs), fault_depth),
         nontrivial=len(seen),
         extra={"depth": depth + 1, "state_cap_hit": capped, "mutating_alphabet": len(muts), "queries": len(qs)})
@@ -516,13 +516,13 @@ def replay(ctx, payload):
         cur = snap
         ok = True
         for op in hist:
-            st, succ = expand_task((ctx.tier, [], cur, False, (0, 1)))
+            st, succ = expand_task((ctx.tier, [], cur, "none", (0, 1)))
             nxt = [s for k, h, s in succ if h[-1] == list(op) or h[-1] == op]
             if not nxt:
                 ok = False
                 break
             cur = nxt[0]
         if ok:
-            st, _ = expand_task((ctx.tier, hist, cur, True, (0, 1)))
+            st, _ = expand_task((ctx.tier, hist, cur, "all", (0, 1)))
             out.extend(v for v in st.violations if v["fingerprint"] == payload["fingerprint"])
     return {"violations": out}
